@@ -554,7 +554,7 @@ impl Driver {
                 json!("set")
             }
             "read_fail" => {
-                self.pipe.set_read_fail();
+                self.pipe.set_read_fail_kind(op["kind"].as_str() == Some("unexpected_eof"));
                 json!("set")
             }
             "sleep" => {
